@@ -286,6 +286,14 @@ theorem script_cut_keeps_prefix_effects
 theorem script_time_limit_sane :
     Gen.luaScriptTimeLimit = 0 ∨ (1000 ≤ Gen.luaScriptTimeLimit ∧ Gen.luaScriptTimeLimit ≤ 60000) := by decide
 
+/-- Tie to the code: what bounds the memory of a script's Lua state (`set_memory_limit` in `create_lua_context`).  Either nothing
+    does (0: a script that keeps allocating takes the process down — finding C06-lua-memory-unbounded), or the bound lies between
+    64 MiB and 4 GiB — above the 512 MB a key can hold only by a small factor, far below an address space; an allocation beyond it
+    is Lua's 'not enough memory' error, i.e. the script ends as an aborted script (`script_cut_keeps_prefix_effects`).  lib/c12.py
+    then runs allocating scripts on address-space-capped dedicated servers. -/
+theorem script_memory_limit_sane :
+    Gen.luaScriptMemoryLimit = 0 ∨ (67108864 ≤ Gen.luaScriptMemoryLimit ∧ Gen.luaScriptMemoryLimit ≤ 4294967296) := by decide
+
 /-- the reply of the aborted script is the error reply, whatever the return expression -/
 theorem aborted_script_replies_error (q : Quirks) (kq : KS.Quirks) (s s' : KS.Store) (db now : Nat)
     (keys argv : List Bytes) (p : Program) (m : Bytes)
